@@ -13,12 +13,10 @@ Definition Nprime (n : N) : Prop :=
 Definition primes_upto (l : list N) (m : N) : Prop :=
   StronglySorted N.lt l /\ forall p, In p l <-> (Nprime p /\ p <= m).
 
-(* the vector holds all primes up to its last element, at least the ten initial ones,
-   and the retained storage behind end() continues the prime sequence *)
+(* the vector holds all primes up to its last element, at least the ten initial ones *)
 Definition vec_inv (v : vec) : Prop :=
   firstn 10 (live v) = first10 /\
-  primes_upto (live v) (vec_back v) /\
-  (exists m, primes_upto (live v ++ stale v) m).
+  primes_upto (live v) (vec_back v).
 
 Definition LIMIT_MAX : N := 2147483648.      (* 2^31 *)
 Definition SIZE_MAX : N := 32768.            (* kilobytes: segment <= 2^28 bits *)
